@@ -44,6 +44,9 @@ def addAll {α} (dst : AL α) : AL α → AL α
 
 def akeys {α} (l : AL α) : List String := l.map (·.1)
 
+/-- no duplicate keys (what a decoded JSON object is) -/
+def NoDup {α} (l : AL α) : Prop := (akeys l).Nodup
+
 /-- object.go `withoutKeys` -/
 def withoutKeys {α} (m : AL α) (ks : List String) : AL α := m.filter fun kv => !ks.contains kv.1
 
@@ -83,8 +86,8 @@ def KObj.anns (o : KObj) : AL String := o.annotations.getD []
 /-- `withoutReservedK8sEntries`: the part of the key before the first "/" ends in
 kubernetes.io or k8s.io. -/
 def reserved (k : String) : Bool :=
-  let s0 := (k.splitOn "/").headD ""
-  s0.endsWith "kubernetes.io" || s0.endsWith "k8s.io"
+  let p := k.toList.takeWhile (· != '/')
+  "kubernetes.io".toList.isSuffixOf p || "k8s.io".toList.isSuffixOf p
 
 def withoutReserved (m : AL String) : AL String := m.filter fun kv => !reserved kv.1
 
@@ -97,7 +100,7 @@ def isEmptyJ : J → Bool
   | .arr l => l.isEmpty
   | .obj l => l.isEmpty
 
-/-- `mergo.Merge(&dst, src, opts...)` on `map[string]any` holding decoded JSON
+/- `mergo.Merge(&dst, src, opts...)` on `map[string]any` holding decoded JSON
 (mergo v1.0.1 deepMerge, reflect.Map case). `ov` = mergo.WithOverride.
 `mergeV ov d s` is the new binding of one key given its old binding `d`. -/
 mutual
@@ -126,7 +129,7 @@ end
 
 /-! ### API-server operations (simstore.go) on values -/
 
-/-- JSON merge patch (RFC 7386) as simstore.mergePatch. -/
+/- JSON merge patch (RFC 7386) as simstore.mergePatch. -/
 mutual
 def mpV (dst : Option J) (p : J) : J :=
   match p with
@@ -140,7 +143,7 @@ def mpF (dst : AL J) : AL J → AL J
     | v => mpF (aset k (mpV (alookup k dst) v) dst) rest
 end
 
-/-- simstore.ssaMerge: maps merge recursively, everything else is replaced. -/
+/- simstore.ssaMerge: maps merge recursively, everything else is replaced. -/
 mutual
 def ssaMergeV (dst : Option J) (cfg : J) : J :=
   match cfg with
@@ -151,7 +154,7 @@ def ssaMergeF (dst : AL J) : AL J → AL J
   | (k, v) :: rest => ssaMergeF (aset k (ssaMergeV (alookup k dst) v) dst) rest
 end
 
-/-- simstore.ssaRemove with no other field manager: every leaf this manager applied
+/- simstore.ssaRemove with no other field manager: every leaf this manager applied
 before (`prev`) and omits now (`cfg`) is removed; a map emptied that way and
 absent from `cfg` is removed too. -/
 mutual
@@ -348,7 +351,18 @@ def mergePatchXR (x : KObj) (p : KObj) : KObj :=
       | some ps => some (mpV x.spec ps)
       | none => x.spec }
 
+/-- `withoutKeys(cmSpec, wellKnownClaimFields...)` followed by SetClaimReference: the
+spec both syncers hand to the XR. `manual`: the XR's update policy (before the sync) is Manual. -/
+def specToXR (c : Cfg) (cm : KObj) (manual : Bool) (cmSpec : AL J) : AL J :=
+  aset "claimRef" (claimRefJ c cm) (withoutKeys cmSpec (claimFilter manual))
+
 /-! ### syncer_ssa.go -/
+
+/-- `if ann := withoutReservedK8sEntries(cm.GetAnnotations()); len(ann) > 0 { AddAnnotations(xrPatch, ann) }` -/
+def nonEmptyUnreserved (a : Option (AL String)) : Option (AL String) :=
+  match a with
+  | some a => if (withoutReserved a).isEmpty then none else some (withoutReserved a)
+  | none => none
 
 /-- The object the server-side syncer applies (`xrPatch`). -/
 def ssaPatch (c : Cfg) (gen : String) (cm : KObj) (xr : Option KObj) (cmSpec : AL J) : KObj :=
@@ -356,15 +370,11 @@ def ssaPatch (c : Cfg) (gen : String) (cm : KObj) (xr : Option KObj) (cmSpec : A
     | some n => if n == "" then gen else n
     | none => gen
   let en := extName xr
-  let ann0 : Option (AL String) :=
-    match cm.annotations with
-    | some a => let f := withoutReserved a; if f.isEmpty then none else some f
-    | none => none
+  let ann0 := nonEmptyUnreserved cm.annotations
   let labels := addAll (withoutReserved cm.labels) (claimLabels c cm)
   let ann := if en != "" then setAnn ann0 extNameKey en else ann0
   let manual := policyOf (xrSpecFields xr) == some "Manual"
-  let spec := aset "claimRef" (claimRefJ c cm) (withoutKeys cmSpec (claimFilter manual))
-  { name := name, labels := labels, annotations := ann, spec := some (.obj spec), status := none }
+  { name := name, labels := labels, annotations := ann, spec := some (.obj (specToXR c cm manual cmSpec)), status := none }
 
 /-- The claim the server-side syncer sends to Update. -/
 def ssaClaim (c : Cfg) (name : String) (cm : KObj) (xr : Option KObj) (cmSpec : AL J) : KObj :=
@@ -382,18 +392,33 @@ def ssaClaim (c : Cfg) (name : String) (cm : KObj) (xr : Option KObj) (cmSpec : 
   { cm with annotations := if en != "" then setAnn cm.annotations extNameKey en else cm.annotations,
             spec := some (.obj s3) }
 
-/-- The claim status the server-side syncer sends to Status().Update. -/
-def ssaStatus (cmStatus : AL J) (xrStatus : AL J) : AL J :=
-  let st0 := withoutKeys xrStatus Xp.Gen.statusProps
-  let st1 := match alookup "conditions" cmStatus with
-    | some cs => aset "conditions" cs st0
-    | none => st0
+/-- `cm.SetConditions(cmcs.Conditions...)` when the claim had conditions -/
+def keepConditions (cmStatus st : AL J) : AL J :=
+  match alookup "conditions" cmStatus with
+  | some cs => aset "conditions" cs st
+  | none => st
+
+/-- `cm.SetConnectionDetailsLastPublishedTime(pub)` when the claim had one -/
+def keepPublished (cmStatus st : AL J) : AL J :=
   match alookup "connectionDetails" cmStatus with
   | some (.obj cd) =>
     match alookup "lastPublishedTime" cd with
-    | some t => aset "connectionDetails" (.obj [("lastPublishedTime", t)]) st1
-    | none => st1
-  | _ => st1
+    | some t => aset "connectionDetails" (.obj [("lastPublishedTime", t)]) st
+    | none => st
+  | _ => st
+
+/-- the claim's own lastPublishedTime, the only connection-detail bookkeeping it keeps -/
+def ownPublished (cst : AL J) : Option J :=
+  match alookup "connectionDetails" cst with
+  | some (.obj cd) =>
+    (match alookup "lastPublishedTime" cd with
+     | some t => some (.obj [("lastPublishedTime", t)])
+     | none => none)
+  | _ => none
+
+/-- The claim status the server-side syncer sends to Status().Update. -/
+def ssaStatus (cmStatus : AL J) (xrStatus : AL J) : AL J :=
+  keepPublished cmStatus (keepConditions cmStatus (withoutKeys xrStatus Xp.Gen.statusProps))
 
 def syncSSA (c : Cfg) (gen : String) (s : St) : Out :=
   match s.cm.spec with
@@ -421,24 +446,34 @@ def csaDesired (c : Cfg) (gen : String) (cm : KObj) (xr : Option KObj) (cmSpec :
   let ann1 := addAnn x0.annotations (cm.annotations.map withoutReserved)
   let lab := addAll (addAll x0.labels (withoutReserved cm.labels)) (claimLabels c cm)
   let ann2 := if xr.isSome && en != "" then setAnn ann1 extNameKey en else ann1
-  let manual := policyOf x0.specFields == some "Manual"
-  let spec := aset "claimRef" (claimRefJ c cm) (withoutKeys cmSpec (claimFilter manual))
+  let manual := policyOf (xrSpecFields xr) == some "Manual"
+  let spec := specToXR c cm manual cmSpec
   let name1 := match refName cmSpec with
     | some n => n
     | none => x0.name
   let name := if xr.isNone && name1 == "" then gen else name1
   { x0 with name := name, labels := lab, annotations := ann2, spec := some (.obj spec) }
 
+/-- `merge(cm.Object["status"], xr.Object["status"], WithOverride, withSrcFilter(status props))` -/
+def csaMergeStatus (cst xst : Option J) : Except String (Option J) :=
+  match cst, xst with
+  | none, _ => .ok none
+  | some c, none => .ok (some c)
+  | some (.obj c), some (.obj x) => .ok (some (.obj (mergeF true c (withoutKeys x Xp.Gen.statusProps))))
+  | _, _ => .error "mergeStatus"
+
+/-- The claim spec the client-side syncer ends with: the XR's revision reference (or
+null) under Automatic, then every XR spec field outside `xrFilter` merged into every
+empty claim field. -/
+def csaClaimSpec (cs xs : AL J) : AL J :=
+  let cs1 := if policyOf xs == some "Automatic" then
+      aset "compositionRevisionRef" ((alookup "compositionRevisionRef" xs).getD .null) cs
+    else cs
+  mergeF false cs1 (withoutKeys xs xrFilter)
+
 /-- the part of the client-side sync after the XR has been applied -/
-def csaBack (c : Cfg) (cm1 : KObj) (xrA : KObj) (s1 : St) (w : List Write) : Out :=
-  -- merge XR status into claim status
-  let merged : Except String (Option J) :=
-    match cm1.status, xrA.status with
-    | none, _ => .ok cm1.status
-    | _, none => .ok cm1.status
-    | some (.obj cst), some (.obj xst) => .ok (some (.obj (mergeF true cst (withoutKeys xst Xp.Gen.statusProps))))
-    | _, _ => .error "mergeStatus"
-  match merged with
+def csaBack (_c : Cfg) (cm1 : KObj) (xrA : KObj) (s1 : St) (w : List Write) : Out :=
+  match csaMergeStatus cm1.status xrA.status with
   | .error e => { st := s1, writes := w, err := e }
   | .ok st' =>
     let body2 := { cm1 with status := st' }
@@ -446,33 +481,41 @@ def csaBack (c : Cfg) (cm1 : KObj) (xrA : KObj) (s1 : St) (w : List Write) : Out
     let w2 := w ++ [Write.claimStatus body2]
     let en2 := extName (some xrA)
     let ann := if en2 != "" then setAnn cm2.annotations extNameKey en2 else cm2.annotations
-    let xs := xrA.specFields
     match cm2.spec with
     | some (.obj cs) =>
-      let cs1 := if policyOf xs == some "Automatic" then
-          aset "compositionRevisionRef" ((alookup "compositionRevisionRef" xs).getD .null) cs
-        else cs
-      let cs2 := mergeF false cs1 (withoutKeys xs xrFilter)
-      let body3 := { cm2 with annotations := ann, spec := some (.obj cs2) }
+      let body3 := { cm2 with annotations := ann, spec := some (.obj (csaClaimSpec cs xrA.specFields)) }
       let cm3 := storeClaimUpdate cm2 body3
       { st := { s1 with cm := cm3, xr := some xrA }, writes := w2 ++ [Write.claimUpdate body3] }
     | _ => { st := { s1 with cm := cm2, xr := some xrA }, writes := w2, err := "mergeSpec" }
+
+/-- the claim after the client-side syncer bound it to the XR named `name` -/
+def csaBind (c : Cfg) (name : String) (cm : KObj) (cmSpec : AL J) : KObj :=
+  { cm with spec := some (.obj (aset "resourceRef" (xrRefJ c name) cmSpec)) }
+
+/-- the claim after the (conditional) first Update of the client-side syncer:
+`if !cmp.Equal(existing, proposed) { cm.SetResourceReference(proposed); client.Update(cm) }` -/
+def csaBound (c : Cfg) (gen : String) (s : St) (cs : AL J) : KObj :=
+  let d := csaDesired c gen s.cm s.xr cs
+  if refIs c d.name cs then s.cm else storeClaimUpdate s.cm (csaBind c d.name s.cm cs)
+
+/-- the XR the client-side Apply leaves in the store: created, or merge-patched unless
+`cmp.Equal(current, desired)` -/
+def csaApplied (c : Cfg) (gen : String) (s : St) (cs : AL J) : KObj :=
+  let d := csaDesired c gen s.cm s.xr cs
+  match s.xr with
+  | none => d
+  | some cur => if kobjEqv cur d then cur else mergePatchXR cur d
 
 def syncCSA (c : Cfg) (gen : String) (s : St) : Out :=
   match s.cm.spec with
   | some (.obj cmSpec) =>
     let d := csaDesired c gen s.cm s.xr cmSpec
-    -- bind the claim first
-    let (cm1, w1) :=
-      if refIs c d.name cmSpec then (s.cm, ([] : List Write))
-      else
-        let body := { s.cm with spec := some (.obj (aset "resourceRef" (xrRefJ c d.name) cmSpec)) }
-        (storeClaimUpdate s.cm body, [Write.claimUpdate body])
-    -- Apply: create, or merge-patch unless nothing would change
-    let (xrA, w2) : KObj × List Write :=
-      match s.xr with
-      | none => (d, [Write.xrCreate d])
-      | some cur => if kobjEqv cur d then (cur, []) else (mergePatchXR cur d, [Write.xrPatch d])
+    let w1 := if refIs c d.name cmSpec then [] else [Write.claimUpdate (csaBind c d.name s.cm cmSpec)]
+    let w2 := match s.xr with
+      | none => [Write.xrCreate d]
+      | some cur => if kobjEqv cur d then [] else [Write.xrPatch d]
+    let cm1 := csaBound c gen s cmSpec
+    let xrA := csaApplied c gen s cmSpec
     csaBack c cm1 xrA { s with cm := cm1, xr := some xrA } (w1 ++ w2)
   | _ => { st := s, err := "claimSpecNotObject" }
 
@@ -508,10 +551,20 @@ inductive Op where
   | xrCtl (d : Delta)
   | upgrade
 
+/-- The API server prunes null values of non-nullable fields on every write; the only
+ones the syncers produce are top-level spec fields (see harness/main/c07.go). -/
+def dropNullSpec (o : KObj) : KObj :=
+  match o.spec with
+  | some (.obj fs) => { o with spec := some (.obj (fs.filter fun kv => match kv.2 with | .null => false | _ => true)) }
+  | _ => o
+
+def pruneNulls (o : Out) : Out :=
+  { o with st := { o.st with cm := dropNullSpec o.st.cm, xr := o.st.xr.map dropNullSpec } }
+
 /-- one step of a history; only sync steps write through the syncers -/
 def step (c : Cfg) (s : St) : Op → Out
-  | .syncSSA gen => syncSSA c gen s
-  | .syncCSA gen => syncCSA c gen s
+  | .syncSSA gen => pruneNulls (syncSSA c gen s)
+  | .syncCSA gen => pruneNulls (syncCSA c gen s)
   | .editClaim d => { st := { s with cm := applyDelta s.cm d } }
   | .xrCtl d => { st := { s with xr := s.xr.map fun x => applyDelta x d } }
   | .upgrade => { st := s }
@@ -545,9 +598,48 @@ def owner (k : String) : Owner :=
   else if k = "compositionRevisionRef" then .revision
   else .user
 
+/-- A valid instance of the generated claim CRD never carries XR-only machinery at the
+top level of its spec: the API server prunes it (the XRD author's schema is assumed not
+to declare `claimRef` / `resourceRefs` itself). -/
+def ClaimValid (cs : AL J) : Prop := ∀ k, owner k = .xrOnly → alookup k cs = none
+
+/-- the spec fields the XR side owns and the claim controller must leave alone -/
+def XrOwned (k : String) : Prop := owner k = .eachSide ∨ k = "resourceRefs"
+
 /-- status machinery: conditions and connection-detail bookkeeping (and the list of
 condition types to copy) are never synced from the XR's status into the claim's. -/
 def statusMachinery (k : String) : Bool :=
   k = "conditions" ∨ k = "connectionDetails" ∨ k = "claimConditionTypes"
+
+/-! ### histories the API server admits -/
+
+/-- an operation the API server admits: an edit of the claim cannot put XR-only machinery
+at the top level of its spec (unknown fields are pruned) -/
+def ValidOp : Op → Prop
+  | .editClaim d => ∀ k, owner k = .xrOnly → alookup k d.setSpec = none
+  | _ => True
+
+/-- invariant of every history -/
+def Inv (s : St) : Prop :=
+  ClaimValid s.cm.specFields ∧
+  (∀ q, s.prev = some q → ∀ k, XrOwned k → alookup k q.specFields = none)
+
+/-! ### the recorded defect D10 (client-side syncer) -/
+
+def wcfg : Cfg := ⟨"example.org/v1", "Thing", "team-a", "example.org/v1", "XThing"⟩
+
+/-- D10 witness: a bound claim that does not (any longer) have the user field `region`,
+and its XR, which still has it. -/
+def d10Witness : St :=
+  { cm := { name := "my-claim", spec := some (.obj [("resourceRef", xrRefJ wcfg "my-claim-x")]) }
+    xr := some { name := "my-claim-x"
+                 labels := [("crossplane.io/claim-name", "my-claim"), ("crossplane.io/claim-namespace", "team-a")]
+                 spec := some (.obj [("claimRef", claimRefJ wcfg { name := "my-claim" }), ("region", .str "xu-east")]) } }
+
+def strAt (k : String) (o : KObj) : String :=
+  match alookup k o.specFields with
+  | some (.str v) => v
+  | _ => ""
+
 
 end Xp.C07
